@@ -1863,8 +1863,36 @@ def bipartite_random_regular(l, r, d, seed=None):
         raise ValueError(
             "bipartite_random_regular(l,r,d) needs r to divid l*d.")
 
+    name = "bipartite_random_regular({},{},{})".format(l, r, d)
+
+    if 2 * d > r:
+        # Dense graph: sample its (sparse) bipartite complement. The
+        # direct construction would get stuck again and again.
+        H = bipartite_random_regular(l, r, r - d)
+        G = BipartiteGraph(l, r)
+        G.name = name
+        for u in range(1, l + 1):
+            missing = set(H.right_neighbors(u))
+            for v in range(1, r + 1):
+                if v not in missing:
+                    G.add_edge(u, v)
+        return G
+
+    while True:
+        G = _bipartite_random_regular_attempt(l, r, d)
+        if G is not None:
+            G.name = name
+            return G
+
+
+def _bipartite_random_regular_attempt(l, r, d):
+    """One run of the sampling process of `bipartite_random_regular`
+
+    Returns `None` when the process gets stuck, i.e. all the edges that
+    could still be added are in the graph already."""
+    import random
+
     G = BipartiteGraph(l, r)
-    G.name = "bipartite_random_regular({},{},{})".format(l, r, d)
 
     L, R = G.parts()
     A = list(L) * d
@@ -1893,7 +1921,7 @@ def bipartite_random_regular(l, r, d, seed=None):
                 if not failure:
                     break
             if failure:
-                return bipartite_random_regular(l, r, d)
+                return None
             # the retries were unlucky but a good edge exists: use it
             G.add_edge(A[ea], B[eb])
             A[i], A[ea] = A[ea], A[i]
